@@ -32,7 +32,12 @@ RejectItems(e, items) ==
   /\ bad' = bad + 1
   /\ skip' = TRUE
   /\ UNCHANGED <<map, cfg>>
-Item(diag, n, exp, got) == [diag |-> diag, n |-> n, exp |-> exp, got |-> got, collides |-> Collides(n)]
+\* bytes the attributes of the object occupy by the model (element size x number of elements, plus about 40 bytes of message
+\* header, name, datatype and dataspace each): the dense attribute heap has one direct block of 64 KiB
+ValBytes(v) == IF "size" \in DOMAIN v /\ "dims" \in DOMAIN v
+               THEN v.size * (LET RECURSIVE P(_) P(i) == IF i > Len(v.dims) THEN 1 ELSE v.dims[i] * P(i + 1) IN P(1)) ELSE 0
+HeapBytes == LET RECURSIVE S(_) S(D) == IF D = {} THEN 0 ELSE LET n == CHOOSE n \in D : TRUE IN ValBytes(map[n]) + 40 + S(D \ {n}) IN S(DOMAIN map)
+Item(diag, n, exp, got) == [diag |-> diag, n |-> n, exp |-> exp, got |-> got, collides |-> Collides(n), heapover56k |-> HeapBytes > 57344]
 Reject(e, diag, detail) == RejectItems(e, <<[diag |-> diag, detail |-> detail, collides |-> FALSE]>>)
 
 -----------------------------------------------------------------------------
